@@ -469,19 +469,21 @@ func (e *exec) SetStderr(w io.Writer) { e.stderr = w }
 // Kill is called with the node lock held (Node.signal). Taking c.mu here is
 // safe because nothing in this package takes a node lock while holding c.mu.
 func (e *exec) Kill(sig os.Signal) error {
-	e.c.mu.Lock()
-	e.c.log("KILL", e.spec.Name, e.c.attempts[e.spec.Name], sigName(sig))
-	e.c.mu.Unlock()
 	e.mu.Lock()
 	r := e.run
 	e.mu.Unlock()
+	e.c.mu.Lock()
+	dead := r != nil && e.c.open[e.spec.Name] != r
+	info := sigName(sig)
+	if r == nil || dead {
+		info += "|lost" // reached no process (not started yet / already gone)
+	}
+	e.c.log("KILL", e.spec.Name, e.c.attempts[e.spec.Name], info)
+	e.c.mu.Unlock()
 	if r == nil {
 		// process "not started yet": like the command executor, the signal is lost
 		return nil
 	}
-	e.c.mu.Lock()
-	dead := e.c.open[e.spec.Name] != r
-	e.c.mu.Unlock()
 	if dead {
 		// like kill(2) on the process group of a process that has exited (a
 		// failed attempt waiting for its retry): the command executor returns ESRCH
